@@ -1,5 +1,9 @@
 package main
 
+import "github.com/fufuok/cache/verifsim/simrt"
+
+func simrtRNG(seed uint64) *simrt.RNG { return simrt.NewRNG(seed, 0xC0FFEE) }
+
 func concProp(id string, quick, thorough int, rule string) {
 	register(&PropDef{
 		ID:   id,
@@ -21,4 +25,59 @@ func init() {
 	concProp("C08", 80000, 80000, concRule+"; oracle: Size/Count vs Range visits vs keys found at every quiescent point")
 	concProp("C13", 80000, 80000, concRule+"; oracle: scheduler deadlock / livelock proof")
 	concProp("C16", 60000, 60000, concRule+"; fault: a victim writer is frozen for the rest of the run; oracle: readers return without joining a wait set, within a linear bound of own steps, results linearizable with the victim pending")
+}
+
+func seqOrConc(id string, seqShare float64, seqGen func(seed uint64, tier string) *SeqScenario) func(seed uint64, tier string) *Case {
+	return func(seed uint64, tier string) *Case {
+		r := simrtRNG(seed)
+		if r.Float64() < seqShare {
+			return &Case{Seq: seqGen(seed, tier)}
+		}
+		return &Case{Conc: genConc(id, seed, tier)}
+	}
+}
+
+const seqRule = "one case = one generated call sequence (5-60 calls quick, up to 300 thorough; whole API; TTL arguments from boundary values and sentinels; clock advances of 0, 1 ns, exactly to e-1/e/e+1 of a stored entry, small, large) executed by one client task with the janitor as a background task under the virtual clock, checked call by call against the reference model of DESIGN Appendix A; distinct = distinct event-trace hash; non-trivial = some call touched an expired-uncleaned entry or a clock advance landed within 1 ns of an expiration instant"
+
+func init() {
+	register(&PropDef{ID: "C01", Runs: map[string]int{"quick": 120000, "thorough": 120000}, Rule: seqRule,
+		Gen: func(seed uint64, tier string) *Case { return &Case{Seq: genSeqCache("C01", seed, tier, CacheKinds)} }})
+	register(&PropDef{ID: "C09", Runs: map[string]int{"quick": 120000, "thorough": 120000}, Rule: seqRule + "; C09: TTL and default-TTL arguments additionally drawn from all int64 values; oracle: exact reported instants and remaining TTLs",
+		Gen: func(seed uint64, tier string) *Case { return &Case{Seq: genSeqCache("C09", seed, tier, CacheKinds)} }})
+	register(&PropDef{ID: "C12", Runs: map[string]int{"quick": 80000, "thorough": 80000}, Rule: "one case = one generated call sequence driven into both twins (Cache and CacheOf[string,any], or Map and MapOf[string,any]) in one simulated world (one virtual clock, same tick instants); every return value, callback report (multiset per call), traversal set and count is compared pairwise; distinct = distinct event-trace hash; non-trivial = at least one eviction report or janitor tick (caches) or one table resize (maps)",
+		Gen: func(seed uint64, tier string) *Case { return &Case{Seq: genTwin(seed, tier)} }})
+	register(&PropDef{ID: "C11", Runs: map[string]int{"quick": 30000, "thorough": 30000}, Rule: "one case = one generated call sequence (point operations + bulk inserts/deletes crossing grow and shrink thresholds) driven into a builtin-map reference and two sibling instances that differ in presize/MinCapacity, table-seed stream, hash mode, min-table-length knob and a prior fill-and-Clear; every return value is compared with the reference and between the siblings; distinct = distinct event-trace hash; non-trivial = at least one grow or shrink happened",
+		Gen: func(seed uint64, tier string) *Case { return &Case{Seq: genSibling(seed, tier)} }})
+	// properties decided on both sequential and concurrent scenarios
+	props["C06"].Gen = seqOrConc("C06", 0.4, func(seed uint64, tier string) *SeqScenario { return genSeqCache("C06", seed, tier, CacheKinds) })
+	props["C07"].Gen = seqOrConc("C07", 0.3, func(seed uint64, tier string) *SeqScenario {
+		if simrtRNG(seed^0x77).Bool(0.5) {
+			return genSeqCache("C07", seed, tier, CacheKinds)
+		}
+		return genSeqMap("C07", seed, tier, MapKinds[:5])
+	})
+	props["C08"].Gen = seqOrConc("C08", 0.3, func(seed uint64, tier string) *SeqScenario {
+		if simrtRNG(seed^0x77).Bool(0.5) {
+			return genSeqCache("C08", seed, tier, CacheKinds)
+		}
+		return genSeqMap("C08", seed, tier, MapKinds[:5])
+	})
+}
+
+func init() {
+	register(&PropDef{ID: "C10", Runs: map[string]int{"quick": 60000, "thorough": 60000},
+		Rule: "one case = one key type of a 33-type catalogue (every comparable kind, structs with padding / blank / interface / nested fields, any and a non-empty interface holding each of them and nil) with a pool of equal-but-differently-built values, a random call sequence on MapOf[K,int64] or CacheOf[K,int64] mirrored on a builtin map[K]int64, under simulator-chosen table seeds, min table length and hash mode (native / deterministic / forced collisions), pointees mutated in between; distinct = distinct event-trace hash; every case is non-trivial (the pools always contain equal-but-differently-built keys)",
+		Gen: genKeys})
+	register(&PropDef{ID: "C15", Runs: map[string]int{"quick": 40000, "thorough": 40000},
+		Rule: "(a) one case = a cache built by a random constructor variant with interval in {negative, 0, 1 ns .. 1 h}, entries with various TTLs, then only clock advances and Count() polls (no call names a key): checked against the TTL model (janitor passes remove and report exactly the expired entries; no pass and no Count change when interval <= 0; nothing uncleaned two intervals after its instant); (b) 1% of cases: n caches are created, filled with finalizer-carrying payloads and dropped, then real GC rounds alternate with scheduler pumps until every janitor task has ended and every payload was collected (bound 20 s); distinct = distinct event-trace hash; non-trivial = a clock advance landed within 1 ns of an expiration instant or an expired entry was touched, all (b) cases",
+		Gen: func(seed uint64, tier string) *Case {
+			r := simrtRNG(seed ^ 0xC15)
+			if r.Float64() < 0.01 {
+				return &Case{Special: &SpecialCase{Kind: "gc", Seed: seed, NonReplayable: true, Caches: 1 + r.Intn(6)}}
+			}
+			return &Case{Seq: genSeqCache("C15", seed, tier, CacheKinds)}
+		}})
+	register(&PropDef{ID: "C14", Runs: map[string]int{"quick": 20000, "thorough": 20000},
+		Rule: concRule + "; built with -race; values are pointers to structs initialised by plain writes just before the store and read field by field (checksum) by every task that obtains them; 2-8 tasks; oracle: zero race reports whose stacks include the code under test or the payload accessors, intact payloads",
+		Gen: func(seed uint64, tier string) *Case { return &Case{Conc: genConc("C14", seed, tier)} }})
 }
